@@ -6,8 +6,11 @@
 //! raw case: `o<cfg> s<seed> <op> ...`
 //!   `P<pathkey>:<signer>:<ts>:<rec>,<rec>..[:<flags>]`  HTTP PUT /pkarr/<z32(pathkey)> of a packet
 //!        signed by key index `signer` (pathkey 9 = the invalid path "notakey");
-//!        rec = `<name>/<type>/<ttl>/<data>`; name = labels joined by '.', `@k` = z32 of key k,
-//!        `^k` = the same in upper case, `-` = the root name; `-` alone as record list = no records.
+//!        rec = `<name>/<type>/<ttl>/<data>`; name = labels joined by '.', `-` = the root name; a label is
+//!        made of pieces joined by '+': `@k` = z32 of key k, `^k` = the same in upper case, `~k` in
+//!        alternating case, `<k=n` / `>k=n` its first / last n characters, `%k` with the first character
+//!        changed, anything else literal (`x+@0` = "x" followed by key 0's z32 text);
+//!        `-` alone as record list = no records.
 //!        flags: t tamper signature, m malformed DNS payload, x one trailing byte, e empty payload,
 //!               l pad payload to exactly 1000 bytes, L to 1001, s<n> truncate the body to n (<72) bytes
 //!   `G<k>`              HTTP GET /pkarr/<z32(k)>
@@ -55,23 +58,46 @@ fn origins(cfg: u64) -> Vec<&'static str> {
 
 type Labels = Vec<Vec<u8>>;
 
+/// One label = pieces joined by '+'.  Pieces that refer to key k (near-miss material for every
+/// comparison against a z32 key label): `@k` the z32 text, `^k` upper case, `~k` alternating case,
+/// `<k=n` its first n characters, `>k=n` its last n characters, `%k` the text with its first
+/// character replaced by another z32 character; anything else is literal text.
+fn piece(p: &str, z: &[String]) -> Vec<u8> {
+    let key = |s: &str| z[s.parse::<usize>().unwrap()].clone();
+    if let Some(k) = p.strip_prefix('@') {
+        key(k).into_bytes()
+    } else if let Some(k) = p.strip_prefix('^') {
+        key(k).to_uppercase().into_bytes()
+    } else if let Some(k) = p.strip_prefix('~') {
+        key(k)
+            .chars()
+            .enumerate()
+            .map(|(i, c)| if i % 2 == 0 { c.to_ascii_uppercase() } else { c })
+            .collect::<String>()
+            .into_bytes()
+    } else if let Some(r) = p.strip_prefix('<') {
+        let (k, n) = r.split_once('=').unwrap();
+        let t = key(k);
+        t[..n.parse::<usize>().unwrap().min(t.len())].as_bytes().to_vec()
+    } else if let Some(r) = p.strip_prefix('>') {
+        let (k, n) = r.split_once('=').unwrap();
+        let t = key(k);
+        t[t.len() - n.parse::<usize>().unwrap().min(t.len())..].as_bytes().to_vec()
+    } else if let Some(k) = p.strip_prefix('%') {
+        let mut t = key(k).into_bytes();
+        t[0] = if t[0] == b'y' { b'b' } else { b'y' };
+        t
+    } else {
+        p.as_bytes().to_vec()
+    }
+}
+
 fn labels_of(name: &str, z: &[String]) -> Labels {
     let name = name.trim_end_matches('.');
     if name == "-" || name.is_empty() {
         return vec![];
     }
-    name
-        .split('.')
-        .map(|l| {
-            if let Some(k) = l.strip_prefix('@') {
-                z[k.parse::<usize>().unwrap()].clone().into_bytes()
-            } else if let Some(k) = l.strip_prefix('^') {
-                z[k.parse::<usize>().unwrap()].to_uppercase().into_bytes()
-            } else {
-                l.as_bytes().to_vec()
-            }
-        })
-        .collect()
+    name.split('.').map(|l| l.split('+').flat_map(|p| piece(p, z)).collect()).collect()
 }
 
 fn name_string(l: &Labels) -> String {
@@ -609,13 +635,53 @@ const LABELS: &[&str] = &["_iroh", "_IROH", "a", "b", "x.y", "_hello.world"];
 const TYPES: &[u16] = &[16, 16, 16, 1, 28, 5, 2, 6];
 const DATA: &[&str] = &["a", "b", "c", "relay=r1", "zz"];
 
+/// Near-miss labels for the comparison "label == z32(k)" (util.rs zone test, from_z32 of the key
+/// label of a query): the key text with something before / after it, proper prefixes and suffixes,
+/// other case, one character changed, the same built around another known key.
+fn near_miss_label(rng: &mut Rng, k: u64) -> String {
+    let other = (k + 1 + rng.below(NKEYS - 1)) % NKEYS;
+    let pre = *rng.pick(&["x", "y", "_", "0", "yb"]);
+    match rng.below(16) {
+        0 | 1 => format!("{pre}+@{k}"),           // ends with the key
+        2 => format!("@{k}+{pre}"),               // starts with the key
+        3 => format!("{pre}+@{k}+{pre}"),         // contains the key
+        4 => format!("<{k}={}", rng.pick(&[51usize, 50, 26, 1])), // proper prefix
+        5 => format!(">{k}={}", rng.pick(&[51usize, 50, 26, 1])), // proper suffix
+        6 => format!("~{k}"),                     // same key, alternating case (equal for DNS)
+        7 => format!("{pre}+^{k}"),               // upper case with a prefix
+        8 => format!("%{k}"),                     // one character differs
+        9 | 10 => format!("{pre}+@{other}"),      // another known signer's key with a prefix
+        11 => format!("@{other}+{pre}"),
+        12 => format!("<{k}=26+>{other}=26"),     // half of one key, half of another
+        13 => format!("{pre}+>{k}=51"),           // same length as the key, last 51 characters equal
+        14 => format!("<{k}=51+{pre}"),           // same length as the key, first 51 characters equal
+        _ => format!("{pre}+~{k}"),
+    }
+}
+
+/// Zone part (last labels) of a record name built around near misses of the signer's label.
+fn near_miss_zone(rng: &mut Rng, signer: u64) -> String {
+    let nm = near_miss_label(rng, signer);
+    match rng.below(10) {
+        0 => format!("@{signer}.{nm}"),           // the key is the label before the last
+        1 => format!("{nm}.@{signer}"),           // near miss below the real zone label (kept)
+        2 => format!("@{signer}.x"),              // key present but not last
+        3 => format!("@{signer}.@{signer}"),      // key twice (kept, name ends with the key)
+        4 => format!("{nm}.dns.test"),
+        5 => format!("@{signer}.{}", near_miss_label(rng, signer)),
+        _ => nm,
+    }
+}
+
 fn gen_rec(rng: &mut Rng, signer: u64) -> String {
-    // zone label: mostly the signer's, sometimes another key's, upper case, or outside any zone
-    let zone = match rng.below(12) {
+    // zone label: mostly the signer's, sometimes another key's, upper case, a near miss of the
+    // signer's label, or outside any zone
+    let zone = match rng.below(16) {
         0 | 1 => format!("@{}", rng.below(NKEYS)),
         2 => format!("^{signer}"),
         3 => "dns.test".to_string(),
         4 => format!("@{signer}.dns.test"),
+        5..=8 => near_miss_zone(rng, signer),
         _ => format!("@{signer}"),
     };
     let name = match rng.below(6) {
@@ -636,10 +702,11 @@ fn gen_query(rng: &mut Rng, cfg: u64) -> String {
         _ => rng.pick(&o).trim_end_matches('.').to_string(),
     };
     let k = rng.below(NKEYS);
-    let zl = match rng.below(10) {
+    let zl = match rng.below(12) {
         0 => format!("^{k}"),
         1 => "notakey".to_string(),
         2 => "".to_string(),
+        3 | 4 => near_miss_label(rng, k),
         _ => format!("@{k}"),
     };
     let pre = match rng.below(5) {
@@ -657,11 +724,38 @@ fn gen_query(rng: &mut Rng, cfg: u64) -> String {
     format!("Q{name}/{ty}")
 }
 
-/// a query for a published record: its name under one of the origins, its type (mostly)
-fn gen_query_for(rng: &mut Rng, cfg: u64, published: &[(String, u16)]) -> String {
-    let (name, ty) = rng.pick(published).clone();
+fn refers_to_key(label: &str) -> bool {
+    label.contains(['@', '^', '~', '<', '>', '%'])
+}
+
+/// The name under which a record would be served from key k's zone if the zone test of the
+/// server were sloppier than an exact comparison of the last label: the first label that refers
+/// to a key is read as `@k` and everything after it dropped; without such a label the last label
+/// is replaced by `@k`.
+fn sloppy_name(name: &str, k: u64) -> String {
+    if name == "-" {
+        return format!("@{k}");
+    }
+    let labels: Vec<&str> = name.split('.').collect();
+    let cut = labels.iter().position(|l| refers_to_key(l)).unwrap_or(labels.len() - 1);
+    let mut v: Vec<String> = labels[..cut].iter().map(|l| l.to_string()).collect();
+    v.push(format!("@{k}"));
+    v.join(".")
+}
+
+/// a query for a published record: its name under one of the origins, its type (mostly); for
+/// records that are not exactly under `@signer`, half of the time the name they would have in the
+/// signer's (or another key's) zone
+fn gen_query_for(rng: &mut Rng, cfg: u64, published: &[(String, u16, u64)]) -> String {
+    let (name, ty, signer) = rng.pick(published).clone();
     let o = origins(cfg);
     let origin = rng.pick(&o).trim_end_matches('.').to_string();
+    let exact = name.split('.').next_back() == Some(format!("@{signer}").as_str());
+    let name = if !exact && rng.chance(1, 2) {
+        sloppy_name(&name, if rng.chance(5, 6) { signer } else { rng.below(NKEYS) })
+    } else {
+        name
+    };
     let name = if rng.chance(1, 6) { name.to_uppercase().replace('@', "^") } else { name };
     let full = match (name.as_str(), origin.as_str()) {
         ("-", "") => "-".to_string(),
@@ -676,7 +770,7 @@ fn gen_query_for(rng: &mut Rng, cfg: u64, published: &[(String, u16)]) -> String
 fn generate(rng: &mut Rng, _i: u64, _n: u64) -> String {
     let cfg = *rng.pick(&[0u64, 0, 0, 1, 2, 3]);
     let mut out = vec![format!("o{cfg}"), format!("s{}", rng.below(1000))];
-    let mut published: Vec<(String, u16)> = Vec::new();
+    let mut published: Vec<(String, u16, u64)> = Vec::new();
     let nops = rng.range(2, 7);
     for _ in 0..nops {
         match rng.below(10) {
@@ -689,7 +783,7 @@ fn generate(rng: &mut Rng, _i: u64, _n: u64) -> String {
                 let recs: Vec<String> = (0..nrec).map(|_| gen_rec(rng, signer)).collect();
                 for r in &recs {
                     let p: Vec<&str> = r.split('/').collect();
-                    published.push((p[0].to_string(), norm_type(p[1].parse().unwrap())));
+                    published.push((p[0].to_string(), norm_type(p[1].parse().unwrap()), signer));
                 }
                 let flags = match rng.below(24) {
                     0 => "t",
